@@ -25,7 +25,7 @@ ASSUMPTIONS = ["documented counts: triangulate quad -> 2 triangles, n-gon (n>=5)
                "face-centre split: +1 vertex, +2 cells per incident cell",
                "new-vertex positions are located against the result of the operation prefix run in its own block (the library is deterministic)"]
 
-SURF_OPS = ["triangulate", "triangulate_face", "split_face_as_fan", "loop", "3quads", "6"]
+SURF_OPS = ["triangulate", "triangulate_face", "split_face_as_fan", "loop", "3quads", "6", "loop", "3quads", "6", "triangulate_face", "split_face_as_fan", "loop2", "6x2"]
 
 
 def cases(seed, tier):
@@ -53,6 +53,10 @@ def _apply_surface_ops(ctx, m, ops, monitor="result"):
                 ed.split_face_as_fan(op[1] % len(ed.mesh.faces))
             elif name == "loop":
                 ed.loop_subdivision(1)
+            elif name == "loop2":
+                ed.loop_subdivision(2)
+            elif name == "6x2":
+                ed.subdivide_triangles_6(2)
             elif name == "3quads":
                 ed.subdivide_triangles_3quads()
             elif name == "6":
@@ -131,10 +135,16 @@ def _expected_surface_counts(V, E, F_ar, ops, faces_now):
                 ar += [3] * (n - 1)
                 V += 1
                 E += n
-        elif name == "loop":
+        elif name in ("loop", "loop2"):
             V, E, ar = triangulate_all(V, E, ar)
-            F = len(ar)
-            V, E, ar = V + E, 2 * E + 3 * F, [3] * (4 * F)
+            for _ in range(2 if name == "loop2" else 1):
+                F = len(ar)
+                V, E, ar = V + E, 2 * E + 3 * F, [3] * (4 * F)
+        elif name == "6x2":
+            V, E, ar = triangulate_all(V, E, ar)
+            for _ in range(2):
+                F = len(ar)
+                V, E, ar = V + E + F, 2 * E + 6 * F, [3] * (6 * F)
         elif name == "3quads":
             V, E, ar = triangulate_all(V, E, ar)
             F = len(ar)
@@ -186,7 +196,7 @@ def _surface_case(desc, ctx, rng):
     # keep the refined mesh small enough for the full connectivity script: replace late growth steps by local ones
     limit = desc.get("max_faces", 900)
     while len(_expected_surface_counts(len(V0), len(topo.edges_of(F0)), [len(f) for f in F0], ops, None)[2]) > limit:
-        idx = [i for i, o in enumerate(ops) if o[0] in ("loop", "3quads", "6")]
+        idx = [i for i, o in enumerate(ops) if o[0] in ("loop", "3quads", "6", "loop2", "6x2")]
         if not idx:
             break
         ops[idx[-1]][0] = rng.choice(["split_face_as_fan", "triangulate_face", "triangulate"])
@@ -246,6 +256,8 @@ def _surface_case(desc, ctx, rng):
     base = {"V": np.asarray(V0, float), "E": sorted(topo.edges_of(F0)), "F": F0}
     for k, op in enumerate(ops):
         pre = ops[:k]
+        if op[0] in ("loop2", "6x2"):
+            break  # repeated refinements: counts / topology / area / connectivity are judged, new-vertex location is judged on the single steps
         needs_tri = op[0] in ("loop", "3quads", "6")
         try:
             if pre or needs_tri:
